@@ -66,10 +66,16 @@ class SymLogic:
         return self.lt(b, a)
 
     def eq(self, a, b):
+        import z3
+        from symx.values import _same_term
+        if a is None or b is None:
+            return z3.BoolVal(a is None and b is None)
+        ra, rb = self._r(a), self._r(b)
+        if _same_term(ra, rb):
+            return z3.BoolVal(True)
         if self.slack:
-            import z3
             return z3.And(self.le(a, b), self.le(b, a))
-        return self._b(self._r(a) == self._r(b))
+        return self._b(ra == rb)
 
     def close(self, a, b, rel):
         """|a-b| <= rel*(1+|b|) — used where the implementation itself computes with float constants."""
@@ -79,11 +85,21 @@ class SymLogic:
     def And(self, *xs):
         import z3
         xs = [self._b(x) for x in _flat(xs)]
+        if any(z3.is_false(x) for x in xs):
+            return z3.BoolVal(False)
+        xs = [x for x in xs if not z3.is_true(x)]
+        if len(xs) == 1:
+            return xs[0]
         return z3.And(*xs) if xs else z3.BoolVal(True)
 
     def Or(self, *xs):
         import z3
         xs = [self._b(x) for x in _flat(xs)]
+        if any(z3.is_true(x) for x in xs):
+            return z3.BoolVal(True)
+        xs = [x for x in xs if not z3.is_false(x)]
+        if len(xs) == 1:
+            return xs[0]
         return z3.Or(*xs) if xs else z3.BoolVal(False)
 
     def Not(self, x):
@@ -177,6 +193,9 @@ class SymInputs:
         from symx.values import sreal
         return sreal(x)
 
+    def bv(self, name, width=16):
+        return self.eng.bitvec(name, width)
+
     def choose(self, n, label="choice"):
         return self.eng.choose(n, label)
 
@@ -199,6 +218,10 @@ class ConcInputs:
 
     def const(self, x):
         return np.float64(float(x))
+
+    def bv(self, name, width=16):
+        v = self.values.get(name, 0)
+        return int(Fraction(v)) if isinstance(v, str) else int(v)
 
     def choose(self, n, label="choice"):
         if self._ci < len(self.choices):
@@ -248,7 +271,10 @@ def leaf_to_json(v):
 def eval_leaf(v, subst):
     """Evaluate a symbolic leaf under a substitution list [(z3 var, z3 value)]."""
     import z3
-    from symx.values import SymBool, SymReal
+    from symx.values import SymBool, SymBV, SymReal
+    if isinstance(v, SymBV):
+        t = z3.simplify(z3.substitute(v.t, *subst))
+        return t.as_long() if z3.is_bv_value(t) else "?"
     if isinstance(v, SymReal):
         if v.c is not None:
             return float(v.c)
@@ -439,6 +465,8 @@ def _predict(eng, paths, vec, assumptions, lg):
         if z3.is_real(var):
             f = Fraction(vec.get(name, 0)) if not isinstance(vec.get(name, 0), Fraction) else vec[name]
             subst.append((var, z3.RealVal(f.numerator) if f.denominator == 1 else z3.Q(f.numerator, f.denominator)))
+        elif z3.is_bv(var):
+            subst.append((var, z3.BitVecVal(int(Fraction(vec.get(name, 0))), var.size())))
     for a in assumptions:
         t = z3.simplify(z3.substitute(lg.truth(a), *subst))
         if not z3.is_true(t):
